@@ -321,7 +321,7 @@ func minimiseSched(bin string, tr map[string]interface{}, race bool, oracle stri
 
 func checkC18(ca *checkArgs) int {
 	start := time.Now()
-	nPlain, nRace := 1500, 160
+	nPlain, nRace := 2500, 250
 	budgetPlain, budgetRace := 40*time.Second, 30*time.Second
 	if ca.tier == "thorough" {
 		nPlain, nRace = 300000, 20000
